@@ -219,6 +219,34 @@ def oracle_C05(table, depth, node, out, rec, res):
         for i, c in enumerate(n.children):
             walk(c, f"{path}.{i}")
     walk(res, "root")
+    # a hit lying inside an earlier kept result: nested under it if that is an undecoded context, absent if it was decoded
+    in_tree = {}
+    for n in res:
+        if id(n) in rec.reported:
+            in_tree[id(n)] = n
+    tbl = {k: v for k, v in table}
+    by_call = {}
+    for oid, (cid, a, b, obj) in rec.reported.items():
+        by_call.setdefault(cid, []).append((a, b, obj))
+    for cid, hits in by_call.items():
+        text = rec.calls[cid]
+        order = sorted(range(len(hits)), key=lambda i: (hits[i][0], -hits[i][1]))   # stable: registry order on ties
+        for pi, i in enumerate(order):
+            A, B, D = hits[i]
+            if id(D) not in in_tree or not D.value:
+                continue
+            supplied = any(h[5] for h in tbl.get(text, []) if h[3] == A and h[4] == B and h[0] == D.type and h[1] == bytes(D.value))
+            decoded = bytes(D.value).lower() != text[A:B].lower() or supplied
+            for j in order[pi + 1:]:
+                a, b, h = hits[j]
+                if not (A <= a and b <= B) or id(h) not in in_tree:
+                    continue
+                if decoded:
+                    msgs.append(f"hit [{a},{b}) lies inside the earlier decoded result [{A},{B}) of {text!r} but was not suppressed")
+                elif h.parent is D.parent:
+                    # (an intervening, partially overlapping hit may have closed the context, so "nested under it" is only
+                    #  required in the form the reference procedure guarantees: never a sibling)
+                    msgs.append(f"hit [{a},{b}) lies inside the earlier undecoded context [{A},{B}) of {text!r} but is its sibling")
     return msgs
 
 
